@@ -21,7 +21,8 @@ MUTATORS: tp.Dict[str, tp.Tuple[tp.Tuple[str, ...], tp.Tuple[str, ...], tp.Tuple
     'index_hierarchy.IndexHierarchyGO.append': (('self',), ('_levels', '_recache'), ()),
     'index_hierarchy.IndexHierarchyGO.extend': (('self',), ('_levels', '_recache'), ()),
     'index_level.IndexLevelGO.extend': (('self',), ('index', 'targets', '_length'), ()),
-    'index_level.IndexLevelGO.append': (('self', 'node'), ('index', '_length'), ('targets', 'offset')),
+    # '*': any local that denotes a tree node (the descent variable, whatever it is called)
+    'index_level.IndexLevelGO.append': (('self', '*'), ('index', '_length'), ('targets', 'offset')),
     'type_blocks.TypeBlocks.append': (('self',), ('_shape', '_index', '_dtypes', '_blocks'), ('_row_dtype',)),
     'array_go.ArrayGO.append': (('self',), ('_array_mutable', '_recache'), ()),
     'array_go.ArrayGO.extend': (('self',), ('_array_mutable', '_recache'), ()),
@@ -103,7 +104,7 @@ class _Mut(flow.Client):
             targets = s.targets if isinstance(s, ast.Assign) else [s.target]
             for t in targets:
                 for el in (t.elts if isinstance(t, (ast.Tuple, ast.List)) else [t]):
-                    if isinstance(el, ast.Attribute) and isinstance(el.value, ast.Name) and el.value.id in self.receivers:
+                    if isinstance(el, ast.Attribute) and isinstance(el.value, ast.Name) and (el.value.id in self.receivers or '*' in self.receivers):
                         st = self._mutate(st, el.attr, s, 'assign')
         return st
 
@@ -113,7 +114,7 @@ class _Mut(flow.Client):
             m = fn.attr
             if m in ('append', 'extend', 'add', 'insert', 'update', '__setitem__'):
                 recv = fn.value
-                if isinstance(recv, ast.Attribute) and isinstance(recv.value, ast.Name) and recv.value.id in self.receivers:
+                if isinstance(recv, ast.Attribute) and isinstance(recv.value, ast.Name) and (recv.value.id in self.receivers or '*' in self.receivers):
                     st = self._mutate(st, recv.attr, node, f'{recv.attr}.{m}')
                 elif isinstance(recv, ast.Name) and recv.id in self.receivers and recv.id == 'self':
                     st = self._mutate(st, '*', node, f'self.{m}')
